@@ -74,3 +74,39 @@ def swapped_arguments(ctx, P, rule, crates, only_params=None):
     if not found and not misnamed:
         ctx.ok(rule, "argument-order", "%d calls to named-parameter workspace functions, no exchanged same-typed arguments" % n)
     return n
+
+
+def swapped_fields(ctx, P, rule, crates):
+    """The same for struct literals: `S { a: x.b, b: x.a }` where a and b have one type and both names exist on the source - two
+    same-typed fields crossed while copying a value over field by field.  Only a true exchange of two names is reported."""
+    n = 0
+    found = []
+    for b in sorted(P.bodies.values(), key=lambda x: x.path):
+        if b.crate not in crates:
+            continue
+        S = None
+        for i, j, s in b.iter_stmts():
+            r = s.get("r") or {}
+            if s["k"] != "assign" or r.get("k") != "agg" or r.get("ak") != "adt" or not r.get("fields") or len(r["fields"]) < 2:
+                continue
+            adt = P.adts.get(r.get("path"))
+            if adt is None or adt.get("kind") == "enum":
+                continue
+            ftys = {f["name"]: f["ty"] for v in adt["variants"] for f in v["fields"]}
+            S = S or T.Slicer(b, P)
+            leaves = [_leaf_names(S.operand(o, i, j)) for o in r["ops"]]
+            n += 1
+            fs = r["fields"]
+            for x in range(len(fs)):
+                for y in range(x + 1, len(fs)):
+                    if ftys.get(fs[x]) is None or ftys.get(fs[x]) != ftys.get(fs[y]):
+                        continue
+                    if fs[y] in leaves[x] and fs[x] in leaves[y] and fs[x] not in leaves[x] and fs[y] not in leaves[y]:
+                        found.append((b, i, r["path"].rsplit("::", 1)[-1], fs[x], fs[y]))
+    for (b, i, ty, a, c) in found:
+        ctx.fail(rule, "field-order:%s<-%s:%s<->%s" % (ty, T.short(b.path), a, c),
+                 "%s is built with `%s` and `%s` taken from each other's source field (both of one type): what is reported under one name is the other quantity"
+                 % (ty, a, c), ctx.loc(b, i))
+    if not found:
+        ctx.ok(rule, "field-order", "%d struct literals with named fields, no two same-typed fields exchanged" % n)
+    return n
